@@ -1,4 +1,4 @@
-CONSTANTS MaxLen = 4  LawDim = 1  LawFull = FALSE
+CONSTANTS MaxLen = 4  LawDim = 1  LawFull = FALSE  Rich = FALSE
 INIT InitO
 NEXT NextO
 INVARIANTS EmitO
